@@ -134,6 +134,7 @@ func TestC17(t *testing.T) {
 		// the same Dialer as used by Transport: the resolution result (filtered to the records
 		// usable over TCP, cloned) reaches Dial through the request context
 		viaTransport := len(entries) == 1 && rapid.IntRange(0, 2).Draw(t, "via_transport") == 0
+		hostOverride := viaTransport && rapid.Bool().Draw(t, "host_header_override")
 		if viaTransport {
 			cl = append(cl, "via_transport")
 		}
@@ -270,6 +271,11 @@ func TestC17(t *testing.T) {
 				req, e := http.NewRequestWithContext(ctx, "GET", "https://"+entries[0]+"/", nil)
 				if e != nil {
 					t.Fatalf("harness: %v", e)
+				}
+				if hostOverride {
+					// a Host header override (net/http feature) changes what is sent in the request,
+					// not whom the connection is made to and authenticated against
+					req.Host = "front.example.net"
 				}
 				derr = guard(func() error {
 					resp, e := tr.RoundTrip(req)
